@@ -193,6 +193,20 @@ def run(rep, tier, seed, replay=None):
             nviol += 1
             if nviol > 10:
                 break
+    # second construction path: zero delayed replication counts left at their default (set the outer count, expand once)
+    zc = [(c, l) for c, l in zip(cases, clines) if "zero_count" in codecrun.features(c)]
+    if zc:
+        lo = ctx.run_c(["LAZY 1"] + [l for _, l in zc])[1:]
+        ctx.run_c(["LAZY 0"])
+        for (c, l), o in zip(zc, lo):
+            rep.count(("lazy", l))
+            feat["lazy_zero_count"] += 1
+            h1, s1 = codec.parse_c_listing(o)
+            fail = "building the dataset without setting the zero replication counts failed (rc=%s)" % h1.get("rc") if h1.get("rc") != "0" else codecrun.check_listing_against_intent(c, s1, check_values=False)
+            if fail:
+                rep.violation("C10: %s  [zero counts left at default; case: %s]" % (fail, l[:300]), {"kind": "expand", "case": l, "case_obj": c, "lazy": True})
+                nviol += 1
+                break
     # ill-formed
     bad = []
     if replay and replay.get("template"):
